@@ -27,9 +27,20 @@
   The automatic export links (`autoExportPaths`) are removed before the directory is
   touched; whatever lies at or below those two paths is outside the statements (explicit
   hypothesis per path, no global layout assumption).
+
+  Section 6 removes that per-path hypothesis: `remove_keeps_user_data`,
+  `remove_renames_unless_pristine`, `removed_never_overwritten_apart`,
+  `removed_subtree_never_overwritten_apart`, `removed_not_overwritten_apart` take instead the decidable
+  condition `ExportsApart cfg` on the configuration (Lemmas/ExportsApart: the export link
+  directories are not the layer directory, not above it through a legal layer name, not inside
+  it below a legal layer name) and `Placed cfg l` (the layer lies in `<layerdirs>/<legal
+  name>`, which `readLayerFiles` establishes); the default configuration satisfies
+  `ExportsApart` (`default_exportsApart`), and for each clause of `ExportsApart` an example
+  shows the per-path condition failing when the clause does.
 -/
 import Lc.Lemmas.FsRename
 import Lc.Lemmas.RemoveLayer
+import Lc.Lemmas.ExportsApart
 
 set_option mvcgen.warning false
 
@@ -378,5 +389,135 @@ example : findLayer (exDefs S_incomplete) b!"a" = some (exLayer S_incomplete)
     ∧ exRun S_incomplete exWorld2 = (false, some (.file [1, 2, 3]), none, true)
     ∧ exRun S_complete exWorld2 = (false, some (.file [1, 2, 3]), none, true) := by
   decide
+
+/-! ### 6. the export-link side condition, from the configuration -/
+
+open Lc.LayerPaths Lc.ExportsApart
+
+/-- **remove (no -files) keeps every entry of the layer directory** — `remove_keeps_user_data_partial`
+    without the per-path side condition.  Hypotheses beyond the run itself: `ExportsApart cfg`
+    (decidable, about exportdirs / exportBinPkg / exportGenerated / layerdirs only) and
+    `Placed cfg l` (what `readLayerFiles` gives every layer).  Every path `p` at or below the
+    layer directory that held `node` holds the same `node` at the same relative path below
+    `<layerPath>~removed`, or the directory was deleted outright and then the probed state was
+    "not yet populated" and `node` is a directory or one of the layer's own files. -/
+theorem remove_keeps_user_data (cfg : Config) (d d' : Defs) (name : Bytes) (l : Layer)
+    (w0 w' : World) (hl : findLayer d name = some l) (hp : w0.pretend = false)
+    (hrun : (removeLayer cfg d name false).run.run w0 = (.ok d', w'))
+    (hA : ExportsApart cfg) (hpl : Placed cfg l)
+    (p : Bytes) (node : Fs.Node) (hget : Fs.get w0.fs p = some node)
+    (hu : Fs.under l.layerPath p = true) :
+    Fs.get w'.fs (l.layerPath ++ removedSuffix ++ p.drop l.layerPath.length) = some node ∨
+    (l.state = S_complete ∧ (node = .dir ∨ p ∈ ownFiles cfg l) ∧ Op.remove l.layerPath ∈ w'.trace) :=
+  remove_keeps_user_data_partial cfg d d' name l w0 w' hl hp hrun p node hget hu
+    (exportsApart_hexp cfg hA l hpl p (inLayerDirs_of_under cfg l hpl p hu))
+
+/-- **Unless the layer is pristine it is renamed** — without the per-path side condition -/
+theorem remove_renames_unless_pristine (cfg : Config) (d d' : Defs) (name : Bytes)
+    (l : Layer) (w0 w' : World) (hl : findLayer d name = some l)
+    (hst : l.state = S_complete → ¬ OwnOnly cfg l w0) (hp : w0.pretend = false)
+    (hrun : (removeLayer cfg d name false).run.run w0 = (.ok d', w'))
+    (hA : ExportsApart cfg) (hpl : Placed cfg l)
+    (p : Bytes) (hu : Fs.under l.layerPath p = true) :
+    Fs.get w'.fs (l.layerPath ++ removedSuffix ++ p.drop l.layerPath.length) = Fs.get w0.fs p ∧
+    Op.rename l.layerPath (l.layerPath ++ removedSuffix) ∈ w'.trace :=
+  remove_renames_unless_pristine_partial cfg d d' name l w0 w' hl hst hp hrun p hu
+    (exportsApart_hexp cfg hA l hpl p (inLayerDirs_of_under cfg l hpl p hu))
+
+/-- **An existing `<dir>~removed` is never overwritten** — without `hexp` / `hpe`: every path
+    in the layer directories (at or below some `<layerdirs>/<legal name>` or its `~removed`)
+    that is not at/below the layer directory itself keeps its lookup, for every probed state,
+    every pretend / fault / crash setting and every exit. -/
+theorem removed_never_overwritten_apart (cfg : Config) (d : Defs) (name : Bytes) (l : Layer) (w0 : World)
+    (hl : findLayer d name = some l)
+    (hre : Fs.lexists w0.fs (l.layerPath ++ removedSuffix) = true)
+    (hA : ExportsApart cfg) (hpl : Placed cfg l)
+    (p : Bytes) (hpo : Fs.under l.layerPath p = false) (hin : InLayerDirs cfg p) :
+    Fs.get ((removeLayer cfg d name false).run.run w0).2.fs p = Fs.get w0.fs p :=
+  removed_never_overwritten cfg d name l w0 hl hre
+    (exportsApart_hexp cfg hA l hpl _ (inLayerDirs_of_removed cfg l hpl _ (under_self _))) p hpo
+    (exportsApart_hexp cfg hA l hpl p hin)
+
+/-- the instance the property names: every path at or below an existing `<dir>~removed` -/
+theorem removed_subtree_never_overwritten_apart (cfg : Config) (d : Defs) (name : Bytes) (l : Layer)
+    (w0 : World) (hl : findLayer d name = some l)
+    (hre : Fs.lexists w0.fs (l.layerPath ++ removedSuffix) = true)
+    (hA : ExportsApart cfg) (hpl : Placed cfg l)
+    (p : Bytes) (hpr : Fs.under (l.layerPath ++ removedSuffix) p = true) :
+    Fs.get ((removeLayer cfg d name false).run.run w0).2.fs p = Fs.get w0.fs p :=
+  removed_subtree_never_overwritten cfg d name l w0 hl (placed_ne_root cfg l hpl) hre
+    (exportsApart_hexp cfg hA l hpl _ (inLayerDirs_of_removed cfg l hpl _ (under_self _))) p hpr
+    (exportsApart_hexp cfg hA l hpl p (inLayerDirs_of_removed cfg l hpl p hpr))
+
+/-- **Unless the layer is pristine, `remove` fails when `<dir>~removed` exists** and leaves
+    every path in the layer directories as it was — without `hexp` -/
+theorem removed_not_overwritten_apart (cfg : Config) (d : Defs) (name : Bytes) (l : Layer) (w0 : World)
+    (hl : findLayer d name = some l) (hst : l.state = S_complete → ¬ OwnOnly cfg l w0)
+    (hre : Fs.lexists w0.fs (l.layerPath ++ removedSuffix) = true)
+    (hA : ExportsApart cfg) (hpl : Placed cfg l) :
+    (∀ d', ((removeLayer cfg d name false).run.run w0).1 ≠ .ok d') ∧
+    ∀ p, InLayerDirs cfg p →
+      Fs.get ((removeLayer cfg d name false).run.run w0).2.fs p = Fs.get w0.fs p := by
+  have h := removed_not_overwritten cfg d name l w0 hl hst hre
+    (exportsApart_hexp cfg hA l hpl _ (inLayerDirs_of_removed cfg l hpl _ (under_self _)))
+  exact ⟨h.1, fun p hin => h.2 p (exportsApart_hexp cfg hA l hpl p hin)⟩
+
+/-- the default configuration (defaults/defaults.go; `defaultCfg` of the scenario harness with
+    its base directory) -/
+def defaultCfg : Config :=
+  { basepath := b!"/var/lib/layercake", layerdirs := b!"/var/lib/layercake/layers", buildRoot := b!"build",
+    binPkg := b!"packages", generated := b!"generated", workdir := b!"overlayfs/workdir",
+    upperdir := b!"overlayfs/upperdir", exportdirs := b!"/var/lib/layercake/export",
+    exportBinPkg := b!"packages", exportGenerated := b!"generated" }
+
+/-- the default configuration satisfies `ExportsApart` -/
+theorem default_exportsApart : ExportsApart defaultCfg := by decide
+
+/-- non-vacuity of the section: the example configuration satisfies `ExportsApart`, the example
+    layer is `Placed`, the remaining hypotheses are those of the `_partial` examples above -/
+example : ExportsApart exCfg ∧ (∀ st, Placed exCfg (exLayer st)) ∧
+    Fs.under (exLayer S_complete).layerPath exData = true ∧
+    Fs.under ((exLayer S_incomplete).layerPath ++ removedSuffix) b!"/d/a~removed/old" = true ∧
+    InLayerDirs exCfg b!"/d/a~removed/old" := by
+  refine ⟨by decide, fun st => ⟨rfl, (by decide : b!"a" ≠ []), (by decide : isLegalLayerName b!"a" = true)⟩,
+    by decide, by decide, ?_⟩
+  exact ⟨b!"a", by decide, by decide, Or.inr (by decide)⟩
+
+/-! `ExportsApart` is not padding: for each of its three clauses a configuration violating it
+    for which the per-path side condition of the `_partial` theorems is FALSE for a path of the
+    layer directory (so those theorems say nothing there, and on a real system the removal of
+    the "link" would take user data with it). -/
+
+def cfgWith (ld ed bp : Bytes) : Config :=
+  { exCfg with layerdirs := ld, exportdirs := ed, exportBinPkg := bp }
+
+/-- clause 1 (link directory = layer directory; here exportdirs = layerdirs and an empty
+    exportBinPkg, equally `exportBinPkg = ".."` one level down): the packages link of layer "a"
+    IS its directory -/
+example : ¬ ExportsApart (cfgWith b!"/d" b!"/d" []) ∧ ¬ ExportsApart (cfgWith b!"/d" b!"/d/x" b!"..") ∧
+    Placed (cfgWith b!"/d" b!"/d" []) (exLayer S_complete) ∧
+    ¬ (∀ m ∈ autoExportPaths (cfgWith b!"/d" b!"/d" []) (exLayer S_complete), Fs.under m.1 exData = false) ∧
+    ¬ (∀ m ∈ autoExportPaths (cfgWith b!"/d" b!"/d/x" b!"..") (exLayer S_complete), Fs.under m.1 exData = false) := by
+  refine ⟨by decide +kernel, by decide +kernel, ⟨rfl, by decide, by decide⟩, by decide, by decide⟩
+
+/-- clause 2 (link directory above the layer directory through a legal name; here
+    exportdirs = "/", layerdirs = "/d"): the packages link of a layer named "d" is `/d`, an
+    ancestor of every layer -/
+example : ¬ ExportsApart (cfgWith b!"/d" b!"/" []) ∧
+    Placed (cfgWith b!"/d" b!"/" []) { name := b!"d", layerPath := b!"/d/d" } ∧
+    ¬ (∀ m ∈ autoExportPaths (cfgWith b!"/d" b!"/" []) { name := b!"d", layerPath := b!"/d/d" },
+        Fs.under m.1 b!"/d/d/build/etc/data" = false) := by
+  refine ⟨by decide +kernel, ⟨rfl, by decide, by decide⟩, by decide⟩
+
+/-- clause 3 (link directory inside a layer; here exportdirs = "/d/a/build/x"): the link of
+    layer "a" lies in its own build tree, paths below it are at/below the link -/
+example : ¬ ExportsApart (cfgWith b!"/d" b!"/d/a/build/x" b!"p") ∧
+    Fs.under (exLayer S_complete).layerPath b!"/d/a/build/x/p/a/f" = true ∧
+    ¬ (∀ m ∈ autoExportPaths (cfgWith b!"/d" b!"/d/a/build/x" b!"p") (exLayer S_complete),
+        Fs.under m.1 b!"/d/a/build/x/p/a/f" = false) := by
+  refine ⟨by decide +kernel, by decide, by decide⟩
+
+/-- … while a link directory inside `<layerdirs>` below a name no layer can have is fine -/
+example : ExportsApart (cfgWith b!"/d" b!"/d/.exports" b!"p") := by decide +kernel
 
 end Lc.Props.C09
